@@ -2,6 +2,8 @@ import Bluebell.Convert
 import Bluebell.Unparse
 import Bluebell.Props.C18
 import Bluebell.Props.C02
+import Bluebell.Props.C04
+import Bluebell.Props.C06
 /-!
 # C05 — XML → text → XML round trip
 
@@ -29,12 +31,6 @@ def mixedContentElements : List String :=
 
 theorem C05_preserve_covers_mixed : mixedContentElements.all (xslPreserveSpace.contains ·) = true := by
   decide +kernel
-
-/-- the string literals of a keyword rule (a choice of literals) -/
-def ruleLits (g : Grammar) (rule : String) : List String :=
-  match g.lookup rule with
-  | some e => (alternatives e).filterMap fun a => match a with | .lit s => some (String.ofList s) | _ => none
-  | none => []
 
 def keywordFor (t : String) : String := (xslHierSynonyms.lookup t).getD (asciiUpperS t)
 
@@ -65,6 +61,67 @@ def c05doc : String :=
 theorem C05_examples :
     sameDoc (roundTrip c05doc "act") (convert testUris "" c05doc "act") = true ∧
     sameDoc (roundTrip "CROSSHEADING **a** //b//\n" "act") (convert testUris "" "CROSSHEADING **a** //b//\n" "act") = true := by
+  decide +kernel
+
+/-! ## The first fragment as a theorem: the paragraph of ordinary text -/
+
+theorem atPlain_of_chars (inp : Array Char) : ∀ (l : List Char) (p : Nat),
+    (∀ i (h : i < l.length), inp[p + i]? = some l[i]) → inp[p + l.length]? = some '\n' →
+    (∀ c ∈ l, isPlain c = true) → AtPlain inp p l
+  | [], p, _, hn, _ => by simpa [AtPlain] using hn
+  | c :: r, p, hc, hn, hp => by
+      refine ⟨by have := hc 0 (by simp); simpa [List.getElem_cons_zero] using this, hp c (by simp), ?_⟩
+      refine atPlain_of_chars inp r (p + 1) (fun i h => ?_) ?_ (fun d hd => hp d (by simp [hd]))
+      · have := hc (i + 1) (by simpa using h)
+        simpa [Nat.add_assoc, Nat.add_comm 1] using this
+      · simpa [Nat.add_assoc, Nat.add_comm 1] using hn
+
+/-- **Unparsing a paragraph of ordinary text writes exactly that text on a line of its own.**
+For a `p` element carrying at most an eId, whose only child is a text made of characters that are not
+marker characters, starting with something that is neither white space nor an uppercase letter, outside
+a bullet item: the stylesheet writes the indentation, the text unchanged, and a blank line. -/
+theorem C05_plain_paragraph_written_as_its_text (fuel : Nat) (ctx : UCtx) (a : List (String × String))
+    (s : String) (f : Char) (r : List Char) (hsl : s.toList = f :: r)
+    (hs : ∀ c ∈ s.toList, safeChar c = true) (hws : isXmlWs f = false) (hup : ¬ ('A' ≤ f ∧ f ≤ 'Z'))
+    (hli : ctx.parent ≠ "li") (ha : a.any (fun (k, _) => k != "eId") = false) :
+    unNode (fuel + 3) ctx (.elem "p" a [.text s]) = indentStr ctx.indent ++ s ++ "\n\n" := by
+  have h1 : "p" ∉ xslContainers := by decide +kernel
+  have h2 : "p" ∉ xslBodies := by decide +kernel
+  have h3 : "p" ∉ xslHier := by decide +kernel
+  have h4 : "p" ∉ xslInlines := by decide +kernel
+  have h5 : "p" ∉ xslSpeechBlocks := by decide +kernel
+  have hv := C06_safe_text_verbatim fuel
+    { parent := "p", before := [], after := [], indent := ctx.indent, pDepth := ctx.pDepth + 1 } s f r hsl hs hws hup rfl
+    (by simp [noElems])
+  have hli' : (ctx.parent == "li") = false := by simpa using hli
+  simp only [unNode]
+  simp [h1, h2, h3, h4, h5, hli', ha, unKids, hv, notesBelowL, notesBelow, unNotes]
+  rw [String.append_assoc]; rfl
+
+/-- **Paragraph round trip, for every ordinary text.** The text the stylesheet writes for such a
+paragraph (previous theorem) is a line which, wherever it stands in a pre-parsed input, every
+block-level rule of the grammar reads back as one paragraph item, and from that item the XML builder
+makes `<p>` with exactly the text the unparser started from. -/
+theorem C05_plain_paragraph_round_trip (u : Uris) (parent : Option String) (st : GenState)
+    (s : String) (f : Char) (r : List Char) (hsl : s.toList = f :: r)
+    (hp : ∀ c ∈ s.toList, isPlain c = true) (hx : xmlTextOk s = true)
+    (h15 : f ≠ Char.ofNat 15) (hb : blockChoosesLine f = true)
+    (inp : Array Char) (p : Nat)
+    (hin : ∀ i (h : i < (f :: r).length), inp[p + i]? = some (f :: r)[i]) (hnl : inp[p + (f :: r).length]? = some '\n') :
+    ∃ t, (∀ rule ∈ blockLevelRules, Lim aknExec inp (.ref rule) p (.ok t)) ∧
+      ∀ k k2, (itemToXml u parent (k2 + 3) (toDict inp (k + 2) t) st).1 = .ok (.elem "p" [] [.text s]) := by
+  have hat : AtPlain inp p (f :: r) := atPlain_of_chars inp (f :: r) p hin hnl (by rw [← hsl]; exact hp)
+  obtain ⟨t, hd, hl⟩ := C04_plain_line_is_a_p inp p f r hat h15 hb
+  refine ⟨t, hl, fun k k2 => ?_⟩
+  have hss : String.ofList (f :: r) = s := by rw [← hsl]; simp
+  have hne : s ≠ "" := by
+    intro e; rw [e] at hsl; simp at hsl
+  rw [hd k, hss]
+  exact C04_p_item_to_xml u parent k2 s st hx hne
+
+/-- the hypotheses are met by everyday text -/
+example : (∀ c ∈ "the quick (brown) fox, 1.2 - jumps".toList, safeChar c = true ∧ isPlain c = true) ∧
+    xmlTextOk "the quick (brown) fox, 1.2 - jumps" = true ∧ blockChoosesLine 't' = true ∧ isXmlWs 't' = false := by
   decide +kernel
 
 end Bluebell
